@@ -5,6 +5,22 @@ package channelsubscriptions
 
 //@ type ChannelSubscriptions
 //@   nonnil subscriptions
+//@   lock subscriptionsLk guards subscriptions
+//@   invariant subscriptionsLk [callbacks-nonnil] {C17} forall k datatransfer.ChannelID, i int :: has(self.subscriptions, k) && 0 <= i && i < len(self.subscriptions[k]) ==> self.subscriptions[k][i] != nil
 
 //@ func (*channelsubscriptions.ChannelSubscriptions).Subscribe {C17,C20}
+//@   requires [callback-nonnil] cb != nil
 //@   modifies cs.subscriptions
+//@   guarantee [appends-for-this-channel] forall k datatransfer.ChannelID :: (k != chid ==> has(self.subscriptions, k) == old(has(self.subscriptions, k)) &&
+//@       (has(self.subscriptions, k) ==> len(self.subscriptions[k]) == len(old(self.subscriptions[k])))) &&
+//@       (k == chid ==> has(self.subscriptions, k) && len(self.subscriptions[k]) == (old(has(self.subscriptions, k)) ? len(old(self.subscriptions[k])) : 0) + 1)
+
+
+//@ func (*channelsubscriptions.ChannelSubscriptions).subscriber {C17,C20}
+//@   requires state != nil
+//@   modifies cs.subscriptions
+//@   loop 0 invariant [in-order] $i >= 0
+//@   loop 0 step [own-channel-in-order] calls(dyn.Subscriber) == 1 && all(dyn.Subscriber, $1 == evt && $2 == state)
+//@   ensures [released-iff-terminal] channels.IsChannelTerminated(state.Status()) ==> !has(cs.subscriptions, state.ChannelID())
+//@ func (*channelsubscriptions.ChannelSubscriptions).Stop {C17}
+//@   opaque
